@@ -124,7 +124,8 @@ pub enum Sched {
     One,
     /// every call moves 1..=min(n,max) bytes
     Rand { seed: u64, max: u64 },
-    /// like Rand, and with probability 1/intr_den a call is `Interrupted` (sinks only; bursts up to 3)
+    /// like Rand, and with probability 1/intr_den a call is `Interrupted` (sinks only; bursts up to 3, or - one
+    /// schedule in four, decided by the seed - long bursts of up to 40)
     Intr { seed: u64, max: u64, intr_den: u64 },
     /// explicit per-call list (0 = Interrupted), then Full
     List { calls: Vec<u32> },
@@ -204,9 +205,17 @@ impl SchedState {
                 let m = (*max).min(n as u64).max(1);
                 Xfer::Move(self.rng.range(1, m) as usize)
             }
-            Sched::Intr { max, intr_den, .. } => {
-                if self.burst < 3 && self.rng.chance(1, *intr_den) {
+            Sched::Intr { max, intr_den, seed } => {
+                // bursts of up to 3 interruptions; one schedule in four (by its seed) has LONG bursts instead: once
+                // started, a burst goes on with probability 15/16 per call, up to 40 (a caller that retries a bounded
+                // number of times gives up inside them)
+                let long = seed % 4 == 0;
+                let go_on = if self.burst == 0 || !long { self.burst < 3 && self.rng.chance(1, *intr_den) } else { self.burst < 40 && self.rng.chance(15, 16) };
+                if go_on {
                     self.burst += 1;
+                    if self.burst == 17 {
+                        fired("sink_interrupted_17_times_in_a_row");
+                    }
                     return Xfer::Interrupted;
                 }
                 self.burst = 0;
